@@ -14,6 +14,8 @@ import (
 	"net/http"
 	"net/url"
 	"os"
+	"runtime"
+	"runtime/debug"
 	"strings"
 	"sync"
 	"sync/atomic"
@@ -282,8 +284,14 @@ func stubRecords() []sdklog.Record {
 	return []sdklog.Record{r}
 }
 
-// exportOnce constructs the exporter of component comp from e and exports one item.
-func exportOnce(ctx context.Context, comp string, e expCfg) error {
+// built is a constructed exporter: one export of a stub item, and its shutdown.
+type built struct {
+	export   func(context.Context) error
+	shutdown func(context.Context) error
+}
+
+// build constructs the exporter of component comp from e through its public constructor.
+func build(ctx context.Context, comp string, e expCfg) (built, error) {
 	switch comp {
 	case "otlptracehttp":
 		o := []otlptracehttp.Option{otlptracehttp.WithInsecure(), otlptracehttp.WithRetry(otlptracehttp.RetryConfig{}),
@@ -308,10 +316,12 @@ func exportOnce(ctx context.Context, comp string, e expCfg) error {
 		}
 		exp, err := otlptracehttp.New(ctx, o...)
 		if err != nil {
-			return err
+			return built{}, err
 		}
-		defer exp.Shutdown(ctx)
-		return exp.ExportSpans(ctx, stubSpans)
+		return built{
+			export:   func(ctx context.Context) error { return exp.ExportSpans(ctx, stubSpans) },
+			shutdown: exp.Shutdown,
+		}, nil
 	case "otlptracegrpc":
 		o := []otlptracegrpc.Option{otlptracegrpc.WithInsecure(), otlptracegrpc.WithRetry(otlptracegrpc.RetryConfig{})}
 		if e.host != nil {
@@ -331,10 +341,12 @@ func exportOnce(ctx context.Context, comp string, e expCfg) error {
 		}
 		exp, err := otlptracegrpc.New(ctx, o...)
 		if err != nil {
-			return err
+			return built{}, err
 		}
-		defer exp.Shutdown(ctx)
-		return exp.ExportSpans(ctx, stubSpans)
+		return built{
+			export:   func(ctx context.Context) error { return exp.ExportSpans(ctx, stubSpans) },
+			shutdown: exp.Shutdown,
+		}, nil
 	case "otlpmetrichttp":
 		o := []otlpmetrichttp.Option{otlpmetrichttp.WithInsecure(), otlpmetrichttp.WithRetry(otlpmetrichttp.RetryConfig{}),
 			otlpmetrichttp.WithProxy(proxyProbe)}
@@ -358,10 +370,12 @@ func exportOnce(ctx context.Context, comp string, e expCfg) error {
 		}
 		exp, err := otlpmetrichttp.New(ctx, o...)
 		if err != nil {
-			return err
+			return built{}, err
 		}
-		defer exp.Shutdown(ctx)
-		return exp.Export(ctx, stubMetrics)
+		return built{
+			export:   func(ctx context.Context) error { return exp.Export(ctx, stubMetrics) },
+			shutdown: exp.Shutdown,
+		}, nil
 	case "otlpmetricgrpc":
 		o := []otlpmetricgrpc.Option{otlpmetricgrpc.WithInsecure(), otlpmetricgrpc.WithRetry(otlpmetricgrpc.RetryConfig{})}
 		if e.host != nil {
@@ -381,10 +395,12 @@ func exportOnce(ctx context.Context, comp string, e expCfg) error {
 		}
 		exp, err := otlpmetricgrpc.New(ctx, o...)
 		if err != nil {
-			return err
+			return built{}, err
 		}
-		defer exp.Shutdown(ctx)
-		return exp.Export(ctx, stubMetrics)
+		return built{
+			export:   func(ctx context.Context) error { return exp.Export(ctx, stubMetrics) },
+			shutdown: exp.Shutdown,
+		}, nil
 	case "otlploghttp":
 		o := []otlploghttp.Option{otlploghttp.WithInsecure(), otlploghttp.WithRetry(otlploghttp.RetryConfig{}),
 			otlploghttp.WithProxy(proxyProbe)}
@@ -408,10 +424,12 @@ func exportOnce(ctx context.Context, comp string, e expCfg) error {
 		}
 		exp, err := otlploghttp.New(ctx, o...)
 		if err != nil {
-			return err
+			return built{}, err
 		}
-		defer exp.Shutdown(ctx)
-		return exp.Export(ctx, stubRecords())
+		return built{
+			export:   func(ctx context.Context) error { return exp.Export(ctx, stubRecords()) },
+			shutdown: exp.Shutdown,
+		}, nil
 	case "otlploggrpc":
 		o := []otlploggrpc.Option{otlploggrpc.WithInsecure(), otlploggrpc.WithRetry(otlploggrpc.RetryConfig{})}
 		if e.host != nil {
@@ -431,12 +449,14 @@ func exportOnce(ctx context.Context, comp string, e expCfg) error {
 		}
 		exp, err := otlploggrpc.New(ctx, o...)
 		if err != nil {
-			return err
+			return built{}, err
 		}
-		defer exp.Shutdown(ctx)
-		return exp.Export(ctx, stubRecords())
+		return built{
+			export:   func(ctx context.Context) error { return exp.Export(ctx, stubRecords()) },
+			shutdown: exp.Shutdown,
+		}, nil
 	}
-	return fmt.Errorf("unknown exporter %s", comp)
+	return built{}, fmt.Errorf("unknown exporter %s", comp)
 }
 
 func isHTTP(comp string) bool { return strings.HasSuffix(comp, "http") }
@@ -451,31 +471,54 @@ func signalVar(comp string) string {
 	return "LOGS"
 }
 
-// guarded runs f with a watchdog: a panic or a hang is an observation, not a harness failure.
+// guarded runs f with a watchdog.  A panic is an observation ("PANIC").  A call that has not
+// returned when the (generous) watchdog expires is reported as "HANG" together with a dump of
+// all goroutines; the driver treats it as inconclusive, never as a verdict.
 func guarded(d time.Duration, f func() error) (err error, special string) {
 	type res struct {
 		err error
 		pan any
+		stk string
 	}
 	ch := make(chan res, 1)
 	go func() {
 		defer func() {
 			if p := recover(); p != nil {
-				ch <- res{pan: p}
+				ch <- res{pan: p, stk: string(debug.Stack())}
 			}
 		}()
 		ch <- res{err: f()}
 	}()
+	t := time.NewTimer(d)
+	defer t.Stop()
 	select {
 	case r := <-ch:
 		if r.pan != nil {
-			return fmt.Errorf("panic: %v", r.pan), "PANIC"
+			return fmt.Errorf("panic: %v\n%s", r.pan, trimStack(r.stk)), "PANIC"
 		}
 		return r.err, ""
-	case <-time.After(d):
-		return fmt.Errorf("no return within %s", d), "HANG"
+	case <-t.C:
+		buf := make([]byte, 1<<20)
+		buf = buf[:runtime.Stack(buf, true)]
+		return fmt.Errorf("no return within %s; goroutines:\n%s", d, buf), "HANG"
 	}
 }
+
+// trimStack keeps the frames of the panicking goroutine that belong to the code under test.
+func trimStack(s string) string {
+	var keep []string
+	for _, l := range strings.Split(s, "\n") {
+		if strings.Contains(l, "go.opentelemetry.io/otel") && !strings.Contains(l, "verifh") {
+			keep = append(keep, strings.TrimSpace(l))
+		}
+		if len(keep) >= 6 {
+			break
+		}
+	}
+	return strings.Join(keep, " <- ")
+}
+
+const watchdog = 45 * time.Second
 
 // exporter settings of one scenario: per setting the three sources (options, signal variable,
 // generic variable).  nil entry = setting not exercised (all sources absent).
@@ -487,10 +530,35 @@ type expScenario struct {
 	timeout  []Src
 }
 
+func (sc expScenario) exercised() []string {
+	var out []string
+	if sc.endpoint != nil {
+		out = append(out, "endpoint")
+	}
+	if sc.headers != nil {
+		out = append(out, "headers")
+	}
+	if sc.compr != nil {
+		out = append(out, "compression")
+	}
+	if sc.timeout != nil {
+		out = append(out, "timeout")
+	}
+	return out
+}
+
+// expPlan is the concrete form of a scenario: environment and options, grouped by setting.
+type expPlan struct {
+	comp string
+	env  map[string][][2]string // setting -> variables
+	opt  map[string]expCfg      // setting -> the option fields of that setting
+}
+
 type expObs struct {
 	special  string // PANIC / HANG
+	phase    string // construct / export / shutdown
 	err      error
-	cap      *capture
+	n        int
 	env      []string
 	opt      string
 	endpoint []string
@@ -499,26 +567,31 @@ type expObs struct {
 	timeout  []string
 }
 
-// runExporterScenario sets the environment, builds the options, exports once and projects.
-func runExporterScenario(sc expScenario, conc *Conc) expObs {
+func (ob expObs) of(setting string) []string {
+	switch setting {
+	case "endpoint":
+		return ob.endpoint
+	case "headers":
+		return ob.headers
+	case "compression":
+		return ob.compr
+	}
+	return ob.timeout
+}
+
+// concretizeExporter turns the abstract sources of a scenario into variables and options.
+func concretizeExporter(sc expScenario, conc *Conc) expPlan {
 	cl := startCollectors()
 	addr := cl.grpcAddr
 	if isHTTP(sc.comp) {
 		addr = cl.httpAddr
 	}
 	sig := signalVar(sc.comp)
-	var env []string
-	setenv := func(k, v string) {
-		os.Setenv(k, v)
-		env = append(env, k+"="+v)
-	}
-	var e expCfg
+	pl := expPlan{comp: sc.comp, env: map[string][][2]string{}, opt: map[string]expCfg{}}
+	setenv := func(setting, k, v string) { pl.env[setting] = append(pl.env[setting], [2]string{k, v}) }
 	// ---- endpoint
-	if sc.endpoint == nil {
-		// deliver through the option collector so that the other settings are observable
-		h := addr["O"]
-		e.host = &h
-	} else {
+	if sc.endpoint != nil {
+		var e expCfg
 		o := sc.endpoint[0]
 		hostO := addr["O"]
 		switch o.K {
@@ -534,18 +607,20 @@ func runExporterScenario(sc expScenario, conc *Conc) expObs {
 			u := "http://" + hostO + o.V
 			e.url = &u
 		case "badurl":
-			u := conc.pick([]string{"://" + hostO, "http://[::1", "http://" + hostO + "/%zz"})
+			u := conc.pick([]string{"://" + hostO, "http://[::1", "http://" + hostO + "/%zz", "http://" + hostO + ":port"})
 			e.url = &u
 		}
+		pl.opt["endpoint"] = e
 		if v, ok := conc.envURL(sc.endpoint[1], addr["S"]); ok {
-			setenv("OTEL_EXPORTER_OTLP_"+sig+"_ENDPOINT", v)
+			setenv("endpoint", "OTEL_EXPORTER_OTLP_"+sig+"_ENDPOINT", v)
 		}
 		if v, ok := conc.envURL(sc.endpoint[2], addr["G"]); ok {
-			setenv("OTEL_EXPORTER_OTLP_ENDPOINT", v)
+			setenv("endpoint", "OTEL_EXPORTER_OTLP_ENDPOINT", v)
 		}
 	}
 	// ---- headers
 	if sc.headers != nil {
+		var e expCfg
 		if o := sc.headers[0]; o.K == "valid" {
 			m := map[string]string{}
 			for k, v := range hdrMaps[o.V] {
@@ -553,15 +628,17 @@ func runExporterScenario(sc expScenario, conc *Conc) expObs {
 			}
 			e.headers, e.hasHeaders = m, true
 		}
+		pl.opt["headers"] = e
 		if v, ok := conc.envHeaders(sc.headers[1]); ok {
-			setenv("OTEL_EXPORTER_OTLP_"+sig+"_HEADERS", v)
+			setenv("headers", "OTEL_EXPORTER_OTLP_"+sig+"_HEADERS", v)
 		}
 		if v, ok := conc.envHeaders(sc.headers[2]); ok {
-			setenv("OTEL_EXPORTER_OTLP_HEADERS", v)
+			setenv("headers", "OTEL_EXPORTER_OTLP_HEADERS", v)
 		}
 	}
 	// ---- compression
 	if sc.compr != nil {
+		var e expCfg
 		o := sc.compr[0]
 		if isHTTP(sc.comp) {
 			var v int
@@ -573,7 +650,7 @@ func runExporterScenario(sc expScenario, conc *Conc) expObs {
 				v = 0
 				e.compression = &v
 			case o.K == "badenum":
-				v = conc.pickInt([]int{7, 2, -1})
+				v = conc.pickInt([]int{7, 2, -1, 1 << 20})
 				e.compression = &v
 			}
 		} else {
@@ -586,46 +663,104 @@ func runExporterScenario(sc expScenario, conc *Conc) expObs {
 				e.compressor = &s
 			}
 		}
+		pl.opt["compression"] = e
 		if v, ok := conc.envCompression(sc.compr[1]); ok {
-			setenv("OTEL_EXPORTER_OTLP_"+sig+"_COMPRESSION", v)
+			setenv("compression", "OTEL_EXPORTER_OTLP_"+sig+"_COMPRESSION", v)
 		}
 		if v, ok := conc.envCompression(sc.compr[2]); ok {
-			setenv("OTEL_EXPORTER_OTLP_COMPRESSION", v)
+			setenv("compression", "OTEL_EXPORTER_OTLP_COMPRESSION", v)
 		}
 	}
 	// ---- timeout
 	if sc.timeout != nil {
+		var e expCfg
 		if ms, ok := conc.optNum("timeout", sc.timeout[0]); ok {
 			d := time.Duration(ms) * time.Millisecond
 			e.timeout = &d
 		}
+		pl.opt["timeout"] = e
 		if v, ok := conc.envNum("timeout", sc.timeout[1]); ok {
-			setenv("OTEL_EXPORTER_OTLP_"+sig+"_TIMEOUT", v)
+			setenv("timeout", "OTEL_EXPORTER_OTLP_"+sig+"_TIMEOUT", v)
 		}
 		if v, ok := conc.envNum("timeout", sc.timeout[2]); ok {
-			setenv("OTEL_EXPORTER_OTLP_TIMEOUT", v)
+			setenv("timeout", "OTEL_EXPORTER_OTLP_TIMEOUT", v)
 		}
+	}
+	return pl
+}
+
+// executeExporter applies the part of the plan that belongs to the given settings (process
+// environment is reset first), constructs the exporter, exports one item and projects what the
+// collectors and probes saw.  Construction, export and shutdown run under separate guards.
+func executeExporter(pl expPlan, settings []string, conc *Conc) expObs {
+	clearEnv()
+	defer clearEnv()
+	var env []string
+	var e expCfg
+	hasEndpoint := false
+	for _, st := range settings {
+		for _, kv := range pl.env[st] {
+			os.Setenv(kv[0], kv[1])
+			env = append(env, kv[0]+"="+kv[1])
+		}
+		o := pl.opt[st]
+		switch st {
+		case "endpoint":
+			e.host, e.path, e.url = o.host, o.path, o.url
+			hasEndpoint = true
+		case "headers":
+			e.headers, e.hasHeaders = o.headers, o.hasHeaders
+		case "compression":
+			e.compression, e.compressor = o.compression, o.compressor
+		case "timeout":
+			e.timeout = o.timeout
+		}
+	}
+	if !hasEndpoint {
+		// deliver through the option collector so that the other settings are observable
+		cl := startCollectors()
+		h := cl.grpcAddr["O"]
+		if isHTTP(pl.comp) {
+			h = cl.httpAddr["O"]
+		}
+		e.host = &h
 	}
 	cp := &capture{}
 	cur.Store(cp)
+	defer cur.Store(nil)
 	ctx, cancel := context.WithCancel(context.Background())
-	err, special := guarded(8*time.Second, func() error { return exportOnce(ctx, sc.comp, e) })
-	cancel()
-	cur.Store(nil)
-	ob := expObs{special: special, err: err, cap: cp, env: env, opt: e.String()}
+	defer cancel()
+	ob := expObs{env: env, opt: e.String()}
+	var b built
+	ob.phase = "construct"
+	ob.err, ob.special = guarded(watchdog, func() (err error) { b, err = build(ctx, pl.comp, e); return err })
+	if ob.special == "" && ob.err == nil {
+		ob.phase = "export"
+		ob.err, ob.special = guarded(watchdog, func() error { return b.export(ctx) })
+		if ob.special == "" {
+			// a panic inside Export may leave the exporter locked: Shutdown is only called (and
+			// only observed) after an Export that returned
+			if err, sp := guarded(watchdog, func() error { return b.shutdown(ctx) }); sp != "" {
+				ob.phase, ob.err, ob.special = "shutdown", err, sp
+			}
+		}
+	}
 	cp.mu.Lock()
 	defer cp.mu.Unlock()
-	if special != "" {
-		ob.endpoint, ob.headers, ob.compr, ob.timeout = []string{special}, []string{special}, []string{special}, []string{special}
+	ob.n = cp.n
+	if ob.special != "" {
+		sp := []string{ob.special}
+		ob.endpoint, ob.headers, ob.compr, ob.timeout = sp, sp, sp, sp
 		return ob
 	}
+	un := []string{"unobservable"}
 	if cp.n == 0 {
 		ob.endpoint = []string{"none|"}
 		// nothing arrived: the other settings are not observable ...
-		ob.headers, ob.compr, ob.timeout = []string{"unobservable"}, []string{"unobservable"}, []string{"unobservable"}
+		ob.headers, ob.compr, ob.timeout = un, un, un
 		// ... except that a deadline probe may still have run (HTTP: before the connection attempt)
 		if cp.hasDL {
-			ob.timeout = conc.absDeadline(sc.comp, "timeout", cp.deadline, cp.remMs)
+			ob.timeout = conc.absDeadline("timeout", cp.deadline, cp.remMs)
 		}
 		return ob
 	}
@@ -633,9 +768,49 @@ func runExporterScenario(sc expScenario, conc *Conc) expObs {
 	ob.headers = absHeaders(cp.hdr)
 	ob.compr = []string{cp.enc}
 	if cp.hasDL {
-		ob.timeout = conc.absDeadline(sc.comp, "timeout", cp.deadline, cp.remMs)
+		ob.timeout = conc.absDeadline("timeout", cp.deadline, cp.remMs)
 	} else {
-		ob.timeout = []string{"unobservable"}
+		ob.timeout = un
+	}
+	return ob
+}
+
+// runExporterScenario executes a (possibly multi-setting) scenario.  When it panics and more
+// than one setting is exercised, every setting is re-executed alone with the same concrete
+// values to attribute the panic: settings that do not panic alone report what they show alone.
+func runExporterScenario(sc expScenario, conc *Conc) expObs {
+	pl := concretizeExporter(sc, conc)
+	ex := sc.exercised()
+	ob := executeExporter(pl, ex, conc)
+	if ob.special != "PANIC" || len(ex) < 2 {
+		return ob
+	}
+	attributed := false
+	single := map[string]expObs{}
+	for _, st := range ex {
+		single[st] = executeExporter(pl, []string{st}, conc)
+		if single[st].special == "PANIC" {
+			attributed = true
+		}
+	}
+	if !attributed {
+		return ob // only the combination panics: reported on every exercised setting
+	}
+	for _, st := range ex {
+		o := single[st].of(st)
+		if st != "endpoint" && single[st].special == "" && single[st].n == 0 {
+			o = []string{"unobservable"}
+		}
+		switch st {
+		case "endpoint":
+			ob.endpoint = o
+		case "headers":
+			ob.headers = o
+		case "compression":
+			ob.compr = o
+		case "timeout":
+			ob.timeout = o
+		}
 	}
 	return ob
 }
@@ -645,17 +820,22 @@ func errText(err error) string {
 		return ""
 	}
 	s := err.Error()
-	if len(s) > 300 {
-		s = s[:300]
+	if len(s) > 600 && !strings.HasPrefix(s, "no return within") {
+		s = s[:600]
+	}
+	if len(s) > 20000 {
+		s = s[:20000]
 	}
 	return s
 }
 
 func runExporterCase(c Case, conc *Conc) Outcome {
 	sc := expScenario{comp: c.Comp}
+	setting := c.Setting
 	switch {
 	case c.Fam == "endpoint":
 		sc.endpoint = c.Srcs
+		setting = "endpoint"
 	case c.Setting == "headers":
 		sc.headers = c.Srcs
 	case c.Setting == "compression":
@@ -664,19 +844,12 @@ func runExporterCase(c Case, conc *Conc) Outcome {
 		sc.timeout = c.Srcs
 	}
 	ob := runExporterScenario(sc, conc)
-	out := Outcome{Env: ob.env, Opt: ob.opt, Detail: errText(ob.err)}
-	switch {
-	case c.Fam == "endpoint":
-		out.Obs = ob.endpoint
-	case c.Setting == "headers":
-		out.Obs = ob.headers
-	case c.Setting == "compression":
-		out.Obs = ob.compr
-	case c.Setting == "timeout":
-		out.Obs = ob.timeout
+	out := Outcome{Env: ob.env, Opt: ob.opt, Detail: errText(ob.err), Obs: ob.of(setting)}
+	if ob.special != "" {
+		out.Detail = ob.phase + ": " + out.Detail
 	}
-	if ob.cap != nil && ob.cap.n > 1 {
-		out.Detail += fmt.Sprintf(" [%d requests]", ob.cap.n)
+	if ob.n > 1 {
+		out.Detail += fmt.Sprintf(" [%d requests]", ob.n)
 	}
 	return out
 }
